@@ -603,10 +603,20 @@ func (StoreVerifyEngine) Run(prop string, ci any) *core.Outcome {
 		}
 	}
 	if ca, ok := files["cardAccess"]; ok && files["dg14"] != nil && live.Verify {
-		f2 := bytes.Clone(ca)
-		// flip inside the first SecurityInfo's value (skip the SET and SEQUENCE headers)
+		// Flip one bit of the last octet (inside the last SecurityInfo's value). The completeness verdict is a
+		// containment test against DG14, so the changed info must not coincide with another info that DG14
+		// genuinely lists (two PACE infos differing in the parameter id only: 0x0b^1 = 0x0a).
+		var f2 []byte
+		for _, mask := range []byte{0x01, 0x02, 0x04, 0x08, 0x10, 0x20, 0x40} {
+			t := bytes.Clone(ca)
+			t[len(t)-1] ^= mask
+			if cardAccessOutsideDG14(t, files["dg14"]) {
+				f2 = t
+				break
+			}
+			out.Probe("cardaccess-tamper-coincides-with-dg14-info")
+		}
 		if len(f2) > 8 {
-			f2[len(f2)-1] ^= 0x01
 			files2 := map[string][]byte{}
 			for kk, vv := range files {
 				files2[kk] = vv
@@ -692,7 +702,7 @@ func (StoreCorruptEngine) Decode(raw json.RawMessage) (any, error) {
 func (StoreCorruptEngine) Gen(prop, tier string, seed uint64, yield func(c any) bool) {
 	n := 48
 	if tier == "thorough" {
-		n = 1600
+		n = 6000
 	}
 	if prop != "C15" {
 		n /= 3
@@ -1104,3 +1114,40 @@ func reEnvelope(env []byte, magic string, ver uint64) []byte {
 }
 
 var _ = term.InstallSeams
+
+// cardAccessOutsideDG14 reports whether the (well-formed) SET in ca has at least one element whose encoding does not
+// occur as an element of DG14's SecurityInfos.
+func cardAccessOutsideDG14(ca, dg14 []byte) bool {
+	top, err := chip.ParseTLVs(ca)
+	if err != nil || len(top) != 1 || top[0].Tag != 0x31 {
+		return false
+	}
+	els, err := chip.ParseTLVs(top[0].Val)
+	if err != nil {
+		return false
+	}
+	d, err := chip.ParseTLVs(dg14)
+	if err != nil || len(d) != 1 {
+		return false
+	}
+	dset, err := chip.ParseTLVs(d[0].Val)
+	if err != nil || len(dset) != 1 {
+		return false
+	}
+	dels, err := chip.ParseTLVs(dset[0].Val)
+	if err != nil {
+		return false
+	}
+	for _, e := range els {
+		found := false
+		for _, x := range dels {
+			if bytes.Equal(e.Raw, x.Raw) {
+				found = true
+			}
+		}
+		if !found {
+			return true
+		}
+	}
+	return false
+}
